@@ -2,3 +2,5 @@ import Pearl.Model.Basic
 import Pearl.Spec
 import Pearl.Model.Index
 import Pearl.Model.Store
+import Pearl.Model.Ops
+import Pearl.Model.Script
